@@ -459,7 +459,13 @@ pub fn boundary_module(r: &mut Rng, v1: bool) -> (Vec<u8>, bool, &'static str) {
             (m.encode(), !over, "boundary.table_size")
         }
         6 => {
-            m.memory = Some((if over { 33 } else { 32 }, None));
+            let min = if over { 33 } else { 32 };
+            let max = match r.below(3) {
+                0 => None,
+                1 => Some(min + r.below(40) as u32),
+                _ => Some(*r.pick(&[512u32, 1000, 65536])),
+            };
+            m.memory = Some((min, max));
             (m.encode(), !over, "boundary.memory_min")
         }
         7 => {
